@@ -32,6 +32,7 @@ CLAIMED = {
  "C16": ("Lean 4 proof (constraint inversion, output naming) + bounded-exhaustive differential against writeInvertedCffTag and the cff binary", "eval(rewrite e) sigma = eval e (flip cff sigma) for every expression/assignment; output naming injective and test-preserving; real function compared on all expressions up to the tier's size, AST diff and directory snapshots on generated programs.", "3 C16", D_NOTE),
  "C17": ("Lean 4 proof (sorting is permutation-invariant) + repeated fresh-process generation compared byte for byte", "Partial: the map-iteration sites that reach the output are sorted, proved order-independent; other sources are searched by repeated runs, -file alone vs package, both modes.", "3 C17", D_NOTE),
  "C18": ("Lean 4 proof (EmitterStack fan-out law; one-invocation event protocol) + differential oracle with recording emitters", "Stack law for every nesting; exactly one outcome event and one TaskDone per invocation in the model; per-emitter event sequences of real generated code checked for every scenario.", "3 C18", D_NOTE),
+ "C12": ("Lean 4 proof (ownership discipline of the scheduler model) + race-detector runs of both harnesses", "Partial: only the loop writes loop state; invalid is written only before the hand-off; every hand-off is a channel operation of the model. 'Therefore race-free' rests on the Go memory model; the race detector searches real executions of scheduler scenarios and generated programs.", "3 C12", S_NOTE),
  "C19": ("Lean 4 proof (counter invariants) + trace-replay correspondence", "report equalities/bounds in every reachable model state; every emitted report of the real scheduler checked against them and against the model's counters.", "3 C19", S_NOTE),
 }
 NA_REASON = "check not built yet in this session (see DESIGN.md section 3 for the planned model and theorems); no claim is made"
